@@ -11,6 +11,10 @@
 #include <ompl/base/PlannerData.h>
 #include <ompl/util/Exception.h>
 #include <chrono>
+#include <set>
+#include <map>
+#include <functional>
+#include <cstring>
 #include <thread>
 #include <mutex>
 #include <time.h>
@@ -245,6 +249,209 @@ static json solutionFacts(const Problem &pr, const ob::ProblemDefinition &pd, co
     return j;
 }
 
+// ------------------------------------------------------------------ G03: the exported planner graph
+// Facts about what Planner::getPlannerData() hands out after a solve, measured by the harness's own oracle
+// (validity predicate, dense re-validation along interpolate, bitwise state comparison).
+static json graphFacts(const Problem &pr, const ob::ProblemDefinition &pd, const ob::PlannerPtr &planner)
+{
+    json g;
+    ob::PlannerData data(pr.si);
+    planner->getPlannerData(data);
+    const auto &sp = pr.space;
+    const unsigned nV = data.numVertices();
+    long nullStates = 0, invalidVerts = 0, outOfBounds = 0, nStart = 0, nGoal = 0, startNotAStart = 0, goalNotInGoal = 0;
+    for (unsigned i = 0; i < nV; ++i)
+    {
+        const ob::State *st = data.getVertex(i).getState();
+        if (!st)
+        {
+            ++nullStates;
+            continue;
+        }
+        double x, y;
+        xy(sp, st, x, y);
+        if (!sp->satisfiesBounds(st))
+            ++outOfBounds;
+        else if (!pr.world.pointValid(x, y))
+            ++invalidVerts;
+        if (data.isStartVertex(i))
+        {
+            ++nStart;
+            bool is = false;
+            for (unsigned k = 0; k < pd.getStartStateCount(); ++k)
+                if (sp->equalStates(st, pd.getStartState(k)))
+                    is = true;
+            if (!is)
+                ++startNotAStart;
+        }
+        if (data.isGoalVertex(i))
+        {
+            ++nGoal;
+            if (!pd.getGoal()->isSatisfied(st))
+                ++goalNotInGoal;
+        }
+    }
+    // edges: undirected view for connectivity, dense re-validation of each directed edge
+    std::vector<int> parent(nV);
+    for (unsigned i = 0; i < nV; ++i)
+        parent[i] = (int)i;
+    std::function<int(int)> find = [&](int a) { return parent[a] == a ? a : parent[a] = find(parent[a]); };
+    long nE = 0, selfLoops = 0, badEdges = 0, antiParallel = 0, cycleEdges = 0, checkedEdges = 0, edgesRecheckBad = 0;
+    double maxLen = 0, worstRun = 0;
+    ob::State *tmp = sp->allocState();
+    const double step = pr.resolutionLength / 10.0;
+    const long edgeCap = 4000;  // dense re-validation is the expensive part: cap it (first edges in index order)
+    std::vector<unsigned> out;
+    for (unsigned i = 0; i < nV; ++i)
+    {
+        out.clear();
+        data.getEdges(i, out);
+        for (unsigned j : out)
+        {
+            ++nE;
+            if (i == j)
+            {
+                ++selfLoops;
+                continue;
+            }
+            bool anti = data.edgeExists(j, i);
+            if (anti && j < i)
+            {
+                ++antiParallel;  // the same undirected edge, already seen from the other side
+                continue;
+            }
+            int a = find((int)i), b = find((int)j);
+            if (a == b)
+                ++cycleEdges;
+            else
+                parent[a] = b;
+            const ob::State *s1 = data.getVertex(i).getState(), *s2 = data.getVertex(j).getState();
+            if (!s1 || !s2)
+                continue;
+            double d = sp->distance(s1, s2);
+            maxLen = std::max(maxLen, d);
+            if (checkedEdges >= edgeCap)
+                continue;
+            ++checkedEdges;
+            int n = std::min(200000, std::max(1, (int)std::ceil(d / step)));
+            double run = 0, worst = 0;
+            for (int k = 0; k <= n; ++k)
+            {
+                sp->interpolate(s1, s2, (double)k / n, tmp);
+                double x, y;
+                xy(sp, tmp, x, y);
+                if (!pr.world.pointValid(x, y))
+                {
+                    run += d / n;
+                    worst = std::max(worst, run);
+                }
+                else
+                    run = 0;
+            }
+            // a directed edge i -> j may be travelled j -> i in a goal tree: judge the better direction
+            if (worst > 2 * pr.resolutionLength && !sp->hasSymmetricInterpolate())
+            {
+                double run2 = 0, worst2 = 0;
+                double d2 = sp->distance(s2, s1);
+                int n2 = std::min(200000, std::max(1, (int)std::ceil(d2 / step)));
+                for (int k = 0; k <= n2; ++k)
+                {
+                    sp->interpolate(s2, s1, (double)k / n2, tmp);
+                    double x, y;
+                    xy(sp, tmp, x, y);
+                    if (!pr.world.pointValid(x, y))
+                    {
+                        run2 += d2 / n2;
+                        worst2 = std::max(worst2, run2);
+                    }
+                    else
+                        run2 = 0;
+                }
+                worst = std::min(worst, worst2);
+            }
+            worstRun = std::max(worstRun, worst);
+            if (worst > 2 * pr.resolutionLength)
+                ++badEdges;
+            if (!pr.si->checkMotion(s1, s2) && !pr.si->checkMotion(s2, s1))
+                ++edgesRecheckBad;
+        }
+    }
+    sp->freeState(tmp);
+    // components, and how many of them hold a start or goal vertex
+    std::set<int> comps, rooted;
+    std::map<int, int> compSize;
+    for (unsigned i = 0; i < nV; ++i)
+    {
+        comps.insert(find((int)i));
+        ++compSize[find((int)i)];
+        if (data.isStartVertex(i) || data.isGoalVertex(i))
+            rooted.insert(find((int)i));
+    }
+    long unrootedEdgeComps = 0;  // components that hold an edge but no start / goal vertex
+    for (auto &kv : compSize)
+        if (kv.second >= 2 && !rooted.count(kv.first))
+            ++unrootedEdgeComps;
+    // the best solution path against the exported graph: states that are vertices (bitwise), consecutive
+    // states joined by an exported edge
+    long pathStates = 0, pathStatesInGraph = 0, pathHops = 0, pathHopsInGraph = 0;
+    if (pd.hasSolution())
+        if (auto *pg = dynamic_cast<og::PathGeometric *>(pd.getSolutionPath().get()))
+        {
+            std::vector<double> ra, rb;
+            std::vector<long> idx;
+            for (std::size_t k = 0; k < pg->getStateCount(); ++k)
+            {
+                ++pathStates;
+                sp->copyToReals(ra, pg->getState(k));
+                long found = -1;
+                for (unsigned i = 0; i < nV && found < 0; ++i)
+                {
+                    const ob::State *st = data.getVertex(i).getState();
+                    if (!st)
+                        continue;
+                    sp->copyToReals(rb, st);
+                    if (ra.size() == rb.size() && memcmp(ra.data(), rb.data(), ra.size() * sizeof(double)) == 0)
+                        found = i;
+                }
+                if (found >= 0)
+                    ++pathStatesInGraph;
+                idx.push_back(found);
+            }
+            for (std::size_t k = 0; k + 1 < idx.size(); ++k)
+            {
+                ++pathHops;
+                if (idx[k] >= 0 && idx[k + 1] >= 0 &&
+                    (idx[k] == idx[k + 1] || data.edgeExists(idx[k], idx[k + 1]) || data.edgeExists(idx[k + 1], idx[k])))
+                    ++pathHopsInGraph;
+            }
+        }
+    g["nV"] = (long)nV;
+    g["nE"] = nE;
+    g["nullStates"] = nullStates;
+    g["invalidVerts"] = invalidVerts;
+    g["outOfBounds"] = outOfBounds;
+    g["nStart"] = nStart;
+    g["nGoal"] = nGoal;
+    g["startNotAStart"] = startNotAStart;
+    g["goalNotInGoal"] = goalNotInGoal;
+    g["selfLoops"] = selfLoops;
+    g["antiParallel"] = antiParallel;
+    g["cycleEdges"] = cycleEdges;
+    g["comps"] = (long)comps.size();
+    g["rootedComps"] = (long)rooted.size();
+    g["unrootedEdgeComps"] = unrootedEdgeComps;
+    g["checkedEdges"] = checkedEdges;
+    g["badEdges"] = badEdges;
+    g["edgesRecheckBad"] = edgesRecheckBad;
+    g["worstRun"] = fx(worstRun);
+    g["maxLen"] = fx(maxLen);
+    g["pathStates"] = pathStates;
+    g["pathStatesInGraph"] = pathStatesInGraph;
+    g["pathHops"] = pathHops;
+    g["pathHopsInGraph"] = pathHopsInGraph;
+    return g;
+}
+
 static void setRange(const ob::PlannerPtr &p, double range)
 {
     if (range > 0 && p->params().hasParam("range"))
@@ -348,6 +555,13 @@ static json runOne(const std::vector<Entry> &reg, const json &cs, const RunSpec 
     for (auto &s : pd->getSolutions())
         sols.push_back(solutionFacts(pr, *pd, s));
     ev["sols"] = sols;
+    if (getenv("VERIF_GRAPH") && thrown.empty())
+    {
+        ev["graph"] = graphFacts(pr, *pd, p);
+        ev["rangeMicro"] = fx(rangeFor(rs.range));
+        ev["hasSolution"] = pd->hasSolution();
+        ev["hasExact"] = pd->hasExactSolution();
+    }
     return ev;
 }
 
